@@ -865,3 +865,64 @@ register(Obligation(name="C16.get_FO.normalised_combinations_of_occupied", prop=
                     run=BoundedNative(nat_FO, 1, tol=1e-8, what="FO_i = sum_j R[i, j] psi_j, normalised, in the occupied span (CH4, complex orthonormal orbitals)"),
                     budget={"quick": 300, "thorough": 600},
                     doc="BOUNDED: Fermi orbitals are the normalised combinations sum_j R[i, j] psi_j of the occupied orbitals"))
+
+
+# ---------------------------------------------------------------------------------------------------------
+# the wrappers of eminus/orbitals.py localise the orbitals of the CURRENT coefficients; Fermi orbitals for non-uniform fillings
+# ---------------------------------------------------------------------------------------------------------
+
+
+def nat_wrappers(rng):
+    """KSO / SCDM / WO / FO (and FLO where its open finding does not apply) called on an SCF object whose stored orthonormal orbitals lag behind its
+    coefficients (a run that ends in steepest-descent steps; coefficients replaced after the run): the returned orbitals are orthonormal and
+    reproduce the density of the occupied space of the CURRENT coefficients."""
+    import eminus
+    from eminus import SCF, Atoms
+    from eminus.dft import get_n_total, orth
+    from eminus.orbitals import KSO, SCDM, WO
+
+    eminus.config.backend = "numpy"
+    eminus.config.verbose = "critical"
+    at = Atoms("CH4", [[0, 0, 0], [1.2, 1.2, 1.2], [-1.2, -1.2, 1.2], [1.2, -1.2, -1.2], [-1.2, 1.2, -1.2]], ecut=4, a=9, center=True)
+    scf = SCF(at, opt={"sd": 4}, etol=1e-12)
+    scf.run()
+    at = scf.atoms
+    e = 0.0
+    for variant in ("after sd steps", "coefficients replaced"):
+        if variant == "coefficients replaced":
+            scf.W = [np.asarray(w) + 0.3 * rnd(rng, *np.shape(w)) for w in scf.W]
+        n_ref = np.asarray(get_n_total(at, orth(at, scf.W)))
+        for fn in (KSO, SCDM, WO):
+            orb = np.asarray(fn(scf)[0][0])
+            n = np.asarray(at.occ.f)[0, 0, 0] * np.sum(np.abs(orb) ** 2, axis=1)
+            e = max(e, float(np.abs(n - n_ref).max() / np.abs(n_ref).max()), float(np.abs(at.dV * orb.conj().T @ orb - np.eye(orb.shape[1])).max()))
+    return e
+
+
+def nat_FO_fillings(rng):
+    """Fermi orbitals for fillings that differ inside a spin channel (restricted open shell: 2, 2, 2, 1): still the normalised combinations
+    sum_j R[i, j] psi_j of the occupied orbitals - the fillings only decide which orbitals are occupied."""
+    from eminus.localizer import get_FO, get_R
+
+    at, scf = _native_mol()
+    psi = _complexify(at, scf, rng)
+    at.occ._f = np.array([[[2.0, 2.0, 2.0, 1.0]]])
+    try:
+        fods = [np.asarray(at.pos[1:5]) * 0.9 + 0.05]
+        fo = np.asarray(get_FO(at, psi, fods)[0][0])
+        psirs = np.asarray(at.I(psi)[0][0])
+        Rm = np.asarray(get_R(at, psi[0][0], fods[0]))
+        want = psirs @ Rm.T
+        e = float(np.abs(fo - want).max() / np.abs(want).max())
+        return max(e, float(np.abs(at.dV * np.sum(np.abs(fo) ** 2, axis=0) - 1).max()))
+    finally:
+        at.occ._f = np.array([[[2.0, 2.0, 2.0, 2.0]]])
+
+
+register(Obligation(name="C16.orbital_wrappers.localise_current_coefficients", prop=PROP, engine="B", bounded=True, functions=["eminus.orbitals:SCDM", "eminus.orbitals:WO", "eminus.orbitals:KSO"],
+                    run=BoundedNative(nat_wrappers, 1, tol=1e-8, what="KSO / SCDM / WO on an SCF object whose stored Y lags behind W: orthonormal, density of the occupied space of the current W"),
+                    budget={"quick": 400, "thorough": 800},
+                    doc="BOUNDED: the orbital wrappers start from get_psi(scf, scf.W) - not from intermediate fields of the SCF object that may belong to earlier coefficients"))
+register(Obligation(name="C16.get_FO.non_uniform_fillings", prop=PROP, engine="B", bounded=True, functions=["eminus.localizer:get_FO", "eminus.localizer:get_R"],
+                    run=BoundedNative(nat_FO_fillings, 1, tol=1e-8, what="Fermi orbitals with fillings (2, 2, 2, 1): normalised combinations sum_j R[i, j] psi_j"),
+                    budget={"quick": 300, "thorough": 600}, doc="BOUNDED: Fermi orbitals do not depend on the size of the (non-zero) fillings"))
